@@ -26,7 +26,9 @@
    adds a depth to the base number, the model has no width parameter; the pinned tree's
    width-dependent comparator is kept as [validate_commit_prefix w] (C19_width_prefix_refuted). *)
 From Coq Require Import List NArith ZArith Bool Permutation.
-From C19 Require Import Model ProofsVoterSet ProofsChain ProofsCommit ProofsIff ProofsJust ProofsOrder ProofsNoAmb ProofsMain ProofsShift.
+From C19 Require Import Model ProofsVoterSet ProofsChain ProofsCommit ProofsIff ProofsJust ProofsOrder ProofsNoAmb ProofsMain ProofsShift ProofsBlock ProofsPayload.
+From Common Require Import Bytes.
+From GrandpaPayload Require Import Payload.
 Import ListNotations.
 Local Open Scope N_scope.
 
@@ -276,3 +278,83 @@ Example C19_shift_nonvacuous :
   let k := 4294967296 in
   verify_finalizes w_vs (map (sh_hdr k) [mkHdr 2 1 7]) 1 (6 + k) 1 (6 + k) (map (sh_pc k) w_pcs) = JOk.
 Proof. vm_compute. reflexivity. Qed.
+
+(* ======================= third round =======================
+   Service.VerifyBlockJustification, the entry point of block import ([verify_block_justification],
+   as repaired by fixes/C19-verify-block-justification-empty-authority-set.patch and
+   fixes/C19-verify-block-justification-number-width.patch): the authority list becomes a voter set
+   with weight 1 per ENTRY; numbers inside the justification are uint32, the finalized number is a
+   Go uint.  "All voter sets": an authority list that yields no voter set (the empty list) is a
+   voter set for which NO justification is valid: the verdict is a rejection, never a panic. *)
+Theorem C19_block_no_voter_set_rejected : forall auths hs fhash fnum thash tnum ps,
+  (verify_block_justification auths hs fhash fnum thash tnum ps = BNoVoters <->
+   auths = [] \/ two64 <= N.of_nat (length auths))
+  /\ verify_block_justification auths hs fhash fnum thash tnum ps <> BPanic.
+Proof.
+  intros. split; [apply block_no_voters | apply block_never_panics].
+Qed.
+Print Assumptions C19_block_no_voter_set_rejected.
+
+(* accepted iff the list yields a voter set, the finalized number fits 32 bits (so it is compared
+   as a number, not modulo 2^32) and the justification is valid for that voter set, in which an
+   authority weighs as often as it is listed *)
+Theorem C19_block_accept_iff : forall auths hs num fhash fnum thash tnum ps,
+  (forall x, In x hs -> num (h_hash x) = num (h_parent x) + 1) ->
+  (forall p, In p ps -> p_num p = num (p_hash p)) ->
+  (forall vs, new_voter_set (unit_weights auths) = Some vs -> excess_equivocation vs ps = false) ->
+  (verify_block_justification auths hs fhash fnum thash tnum ps = BOut JOk <->
+   exists vs, new_voter_set (unit_weights auths) = Some vs /\ fnum < two32
+              /\ (forall id, vs_weight vs id = N.of_nat (length (filter (N.eqb id) auths)))
+              /\ justification_valid_spec vs hs fhash fnum thash tnum ps = true).
+Proof. exact block_accept_iff_spec. Qed.
+Print Assumptions C19_block_accept_iff.
+
+(* the tree before the repairs: the empty authority list made the entry point panic (nil voter set
+   dereferenced), and a finalized number 2^32 + 6 was accepted for a justification of block number 6 *)
+Theorem C19_block_prefix_refuted :
+  (exists hs fhash fnum thash tnum ps,
+     verify_block_justification_prefix [] hs fhash fnum thash tnum ps = BPanic)
+  /\ (exists auths hs fhash fnum thash tnum ps,
+        verify_block_justification_prefix auths hs fhash fnum thash tnum ps = BOut JOk
+        /\ fnum <> tnum
+        /\ verify_block_justification auths hs fhash fnum thash tnum ps = BOut (JErr JTarget)).
+Proof.
+  destruct block_prefix_witness as [H1 [_ [H3 [H4 _]]]]. split.
+  - exists wb_hs, 1, 6, 1, 6, wb_pcs. exact H1.
+  - exists [0; 1; 2], wb_hs, 1, (6 + two32), 1, 6, wb_pcs. split; [exact H3|]. split; [discriminate | exact H4].
+Qed.
+Print Assumptions C19_block_prefix_refuted.
+
+(* non-vacuity: accepted with three authorities; with authority 0 listed twice two precommits
+   suffice (weight 2 + 1 of total 3), with three single authorities they do not *)
+Example C19_block_nonvacuous :
+  verify_block_justification [0; 1; 2] wb_hs 1 6 1 6 wb_pcs = BOut JOk
+  /\ verify_block_justification [0; 0; 1] wb_hs 1 6 1 6 [mkPc 2 7 0 0 true; mkPc 1 6 1 0 true] = BOut JOk
+  /\ verify_block_justification [0; 1; 2] wb_hs 1 6 1 6 [mkPc 2 7 0 0 true; mkPc 1 6 1 0 true] = BOut (JErr JCommit)
+  /\ verify_block_justification [] wb_hs 1 6 1 6 wb_pcs = BNoVoters.
+Proof. destruct block_prefix_witness as [_ [H2 [_ [_ [H5 [H6 H7]]]]]]. auto. Qed.
+
+(* "Valid signatures for the given round and set", about bytes.  [sigv id bytes sig] is the signature
+   verdict on a byte string (ed25519: C29), [hb] the bytes of a block hash, nw = 4 (uint32 numbers)
+   or 8 (uint64).  If every verdict bit is [sigv] on the localized payload
+   1 ++ hash ++ number(nw LE) ++ round(8 LE) ++ set id(8 LE) ([well_signed], the situation of the
+   real code; the encoder is compared with these bytes on every run), an accepted justification has
+   EVERY listed signature verifying over the precommit payload for THE GIVEN ROUND AND SET, and more
+   than two thirds of the summed weight behind the target. *)
+Theorem C19_accept_signed_bytes : forall sigv hb nw round setid ws vs hs fhash fnum thash tnum ps,
+  well_signed sigv hb nw round setid ps ->
+  new_voter_set ws = Some vs ->
+  verify_finalizes vs hs fhash fnum thash tnum ps = JOk ->
+  (forall p, In p ps -> sigv (p_id p) (precommit_payload hb nw round setid p) (p_sig p) = true)
+  /\ 2 * sum_all ws < 3 * spec_weight vs hs (members vs ps) thash.
+Proof. exact accept_signed_bytes. Qed.
+Print Assumptions C19_accept_signed_bytes.
+
+Theorem C19_payload_determines_round_and_set : forall hb nw round setid p st h n r i,
+  length (hb (p_hash p)) = length h -> st < 256 ->
+  p_num p < 256 ^ N.of_nat nw -> n < 256 ^ N.of_nat nw ->
+  round < 256 ^ N.of_nat 8 -> r < 256 ^ N.of_nat 8 -> setid < 256 ^ N.of_nat 8 -> i < 256 ^ N.of_nat 8 ->
+  precommit_payload hb nw round setid p = vote_payload nw st h n r i ->
+  st = stage_precommit /\ h = hb (p_hash p) /\ n = p_num p /\ r = round /\ i = setid.
+Proof. exact precommit_payload_determines. Qed.
+Print Assumptions C19_payload_determines_round_and_set.
